@@ -93,6 +93,18 @@ def generate(repo, out):
         if st - base - derived: pr.append("Geometry::clear: unknown statements %s" % sorted(st - base - derived))
         if derived <= st: geom_fixed = True
         elif st & derived: pr.append("Geometry::clear resets only part of the derived containers: missing %s" % sorted(derived - st))
+    fb = body_after(gh, r"void\s+finalize\s*\(\s*const\s+bool\s+OLD_ORDERING\s*=\s*false\s*\)\s*\{")
+    fin_fixed = False
+    if fb is None: pr.append("geometry.h: finalize() not found")
+    else:
+        t = norm(fb); RESET = "invalid_vertices_.clear();independant_parts.clear();meshpairs.clear();for(auto&mesh:meshes()){mesh.outermost()=false;mesh.current_barrier()=false;mesh.isolated()=false;}"
+        rest = t.replace(RESET, "", 1)
+        if rest != "if(has_conductivities())mark_current_barriers();if(domains().size()!=0){set_outermost_domain(outermost_domain());check_geometry_is_nested();}generate_indices(OLD_ORDERING);make_mesh_pairs();#ifdefDEBUGfor(constauto&mesh:meshes())mesh.check_consistency(\"geometryfinalizestep\");#endif":
+            pr.append("Geometry::finalize: statement sequence not recognised")
+        fin_fixed = t.startswith(RESET)
+        if not fin_fixed and RESET in t: pr.append("Geometry::finalize: the resets are not at the start")
+    if fin_fixed != geom_fixed: pr.append("Geometry::clear and Geometry::finalize are not both repaired (clear: %s, finalize: %s)" % (geom_fixed, fin_fixed))
+    geom_fixed = geom_fixed and fin_fixed
     # ---- Sensors::load(std::istream&)
     sc = rd("OpenMEEG/src/sensors.cpp")
     sb = body_after(sc, r"void\s+Sensors::load\s*\(\s*std::istream&\s*in\s*\)\s*\{")
@@ -128,8 +140,31 @@ def generate(repo, out):
     sb2 = body_after(asm, r"Matrix\s+SurfSourceMat\s*\(\s*const\s+Geometry&\s*geo\s*,\s*Mesh&\s*source_mesh\s*,\s*const\s+Integrator&\s*integrator\s*\)\s*\{")
     marks = sb2 is not None and "source_mesh.outermost()=true;source_mesh.current_barrier()=true;" in norm(sb2)
     if not marks: pr.append("SurfSourceMat: the statements marking the source mesh were not found")
+    # ---- declared const-ness of the computations of the compute machine (operands: 0 geo 1 H 2 Hinv 3 dip 4 DSM 5 v2eeg 6 h2meg 7 ds2meg 8 rhsM 9 rhsV 10 eeg 11 meg)
+    sym = norm(rd("OpenMEEGMaths/include/symmatrix.h")); gain = norm(rd("OpenMEEG/include/gain.h")); asm_h = norm(rd("OpenMEEG/include/assemble.h"))
+    CAT = [("HeadMat", asm_h, "SymMatrixHeadMat(constGeometry&geo,", [0]),
+           ("SymMatrix::solveLin(Matrix&)", sym, "MatrixsolveLin(Matrix&B)const;", [1, 8]),
+           ("SymMatrix::solveLin(const Vector&)", sym, "VectorsolveLin(constVector&B)const;", [1, 9]),
+           ("SymMatrix::inverse", sym, "SymMatrixinverse()const;", [1]),
+           ("SymMatrix::operator*(Vector)", sym, "Vectoroperator*(constVector&v)const;", [1, 9]),
+           ("GainEEG", gain, "GainEEG(constSymMatrix&HeadMatInv,constMatrix&SourceMat,constSparseMatrix&Head2EEGMat):", [2, 4, 5]),
+           ("GainEEGadjoint", gain, "GainEEGadjoint(constGeometry&geo,constMatrix&dipoles,constSymMatrix&HeadMat,constSparseMatrix&Head2EEGMat):", [0, 3, 1, 5]),
+           ("GainMEGadjoint", gain, "GainMEGadjoint(constGeometry&geo,constMatrix&dipoles,constSymMatrix&HeadMat,constMatrix&Head2MEGMat,constMatrix&Source2MEGMat):", [0, 3, 1, 6, 7]),
+           ("GainEEGMEGadjoint", gain, "GainEEGMEGadjoint(constGeometry&geo,constMatrix&dipoles,constSymMatrix&HeadMat,constSparseMatrix&Head2EEGMat,constMatrix&Head2MEGMat,constMatrix&Source2MEGMat):", [0, 3, 1, 5, 6, 7]),
+           ("GainMEG", gain, "GainMEG(constSymMatrix&HeadMatInv,constMatrix&SourceMat,constMatrix&Head2MEGMat,constMatrix&Source2MEGMat):", [2, 4, 6, 7]),
+           ("DipSourceMat", asm_h, "DipSourceMat(constGeometry&geo,constMatrix&dipoles,conststd::string&domain_name);", [0, 3]),
+           ("Head2EEGMat", asm_h, "SparseMatrixHead2EEGMat(constGeometry&geo,constSensors&electrodes);", [0, 10]),
+           ("Head2MEGMat", asm_h, "MatrixHead2MEGMat(constGeometry&geo,constSensors&sensors);", [0, 11]),
+           ("DipSource2MEGMat", asm_h, "MatrixDipSource2MEGMat(constMatrix&dipoles,constSensors&sensors);", [3, 11]),
+           ("SymMatrix::operator*(Matrix)", sym, "Matrixoperator*(constMatrix&B)const;", [2, 4])]
+    cat_lines = []
+    for nm, src, sig, reads in CAT:
+        ok = sig in src
+        if not ok: pr.append("compute catalogue: the const signature of %s was not found (`%s`): its operands are treated as written" % (nm, sig))
+        writes = [] if ok else [r for r in reads if not (nm == "SymMatrix::solveLin(Matrix&)" and r == 8)]
+        cat_lines.append("  (%s, %s)" % ("[" + "; ".join("%d%%nat" % r for r in reads) + "]", "[" + "; ".join("%d%%nat" % w for w in writes) + "]"))
     txt = """(* GENERATED by translators/t_c17_state.py from the current sources - do not edit. *)
-From OM Require Import Maths.IOState Geom.MeshState.
+From OM Require Import Base.Lists Maths.IOState Geom.MeshState.
 Definition code_io_cfg : cfg := {| consume_before_open := %s; tag_at_gcount := %s |}.
 Definition code_get_current_resets : bool := %s.
 Definition code_load_save_retry_shape : bool := %s.
@@ -138,6 +173,9 @@ Definition code_geometry_clear_resets_derived : bool := %s.
 Definition code_sensors_load_resets : bool := %s.
 Definition code_mesh_cfg : mcfg := {| clear_flags := %s; clear_private_geometry := %s |}.
 Definition code_surfsource_marks_source : bool := %s.
-""" % (b(consume_before_open), b(tag_at_gcount), b(get_resets), b(shape_ok), b(sparse_clears), b(geom_fixed), b(sens_fixed), b(mesh_flags), b(mesh_geom), b(marks))
+(* (operands read, operands declared non-const) of every computation of the compute machine, from the signatures *)
+Definition code_compute_catalogue : list (list nat * list nat) := [
+%s ].
+""" % (b(consume_before_open), b(tag_at_gcount), b(get_resets), b(shape_ok), b(sparse_clears), b(geom_fixed), b(sens_fixed), b(mesh_flags), b(mesh_geom), b(marks), ";\n".join(cat_lines))
     gencoq.put(os.path.join(out, "GenC17.v"), txt)
     return pr
